@@ -148,6 +148,12 @@ def run_verus_units(pid, unit_names, out, tier, variants=None):
         if res.undecided:
             out.undecided.append(f'unit {uname}: {res.undecided}')
         for pc in tagged:
+            if pc.contract.get('external_body') and pc.contract.get('proved_in'):
+                # modular use of a callee contract whose body is verified in another unit of this same check
+                if pc.contract['proved_in'] not in unit_names:
+                    out.undecided.append(f'unit {uname}: {pc.name} relies on unit {pc.contract["proved_in"]}, which is not part of this check')
+                out.extra.setdefault('modular_callee_contracts', []).append(f'[{uname}] {pc.name} ({pc.origin}): only the contract is visible here; the body is verified against the same contract in unit {pc.contract["proved_in"]}')
+                continue
             if pc.contract.get('external_body'):
                 out.assumptions.append(f'[{uname}] {pc.name} ({pc.origin}): contract ASSUMED, body not verified: ' + (pc.contract.get('assumed') or '; '.join(pc.contract.get('ensures') or [])) + (' -- ' + pc.contract['note'] if pc.contract.get('note') else ''))
                 continue
